@@ -308,6 +308,7 @@ def execute(plan, scratch):
         'fired': sim.fired, 'n_sandboxes': len(sim.sandboxes), 'leftover': leftover,
         'digest': digest, 'sim_seconds': sim.clock.advanced,
         'orphans': [c.tag for c in sim.children if c.returncode is None],
+        'out_of_place': sim.counts.get('stub_out_of_place', 0),
     }
     _annotate(plan, hist)
     w.destroy()
@@ -452,6 +453,9 @@ STEP_WORDS = {'symbols': 'symbols', 'pre_sds': 'pre-sds', 'post_setup': 'post-se
 def oracle(plan, hist):
     if plan.get('mode') == 'disk':
         return diskmode.oracle_c01(plan, hist)
+    if hist.get('out_of_place'):
+        return [{'rule': 'C01.instruction_runs_in_the_phase_it_is_written_in', 'expected': 0,
+                 'observed': {'instructions that ran as part of another phase': hist['out_of_place']}}]
     V = []
 
     def bad(rule, expected, observed):
